@@ -22,7 +22,7 @@ namespace sim
 {
 enum TaskKind { TK_READER = 0, TK_SEARCH = 1, TK_HELPER = 2 };
 enum TaskState { ST_READY = 0, ST_RUNNING, ST_WAIT_INPUT, ST_WAIT_LOCK, ST_DONE, ST_WAIT_MUTEX, ST_WAIT_COND, ST_SLEEP, ST_WAIT_JOIN };
-constexpr int MAX_TASKS = 256;
+constexpr int MAX_TASKS = 1024;
 
 struct Task
 {
@@ -90,6 +90,7 @@ struct GoRec
     std::vector<InfoRec> infos;
     int iterations_done = 0;
     bool stop_sent = false, stop_consumed = false, stop_processed = false;
+    bool node_limit_flagged = false;
     bool exit_pending = false;  // the GUI sent quit / closed the pipe before this go was answered: no bestmove is owed
     int64_t stop_line_no = 0;  // ordinal (among all `stop` lines the GUI sent) of the stop meant for this go
     std::string stop_window;
@@ -140,6 +141,7 @@ struct World
     // pipe / transcript
     std::deque<std::string> inq;
     bool in_eof = false;
+    int64_t wall_jump_ns = 0;         // accumulated steps of the wall clock (F_WALL_JUMP)
     bool exit_requested = false;      // the GUI sent quit or closed the pipe
     bool uci_destroyed = false;       // the reader left Uci::loop(): main() destroyed the Uci object and is in exit()
     int64_t exit_window_nodes = -1;   // node visits the other threads still get before exit_group (drawn)
